@@ -91,14 +91,36 @@ Containers(ns, tag, L) ==
   UNION {{Cont(ns, tag, n, {}, z) : z \in 0..n} \cup {Cont(ns, tag, n, ss, 0) : ss \in (SUBSET (1..n)) \ {{}}} : n \in 0..L}
 Full(ns) == {Absent, None} \cup Scalars(ns) \cup Containers(ns, "seq", MaxLen) \cup Containers(ns, "map", MaxLen)
             \cup {Cont(ns, "imap", n, {}, 0) : n \in 1..MaxLen} \cup {Cont(ns, "imap", n, 1..n, 0) : n \in 1..MaxLen}
+(* KEY ORDER.  A mapping lists its features in the order they were inserted, which need not be the ascending order  *)
+(* of the keys ({'v': 2, 'u': 3}, {6: 2, 5: 3}).  Entry i keeps its value (the i-th prime / string) and gets the key  *)
+(* Keys[perm[i]]: the oracle (Features / Feat) names every feature by ITS OWN key, whatever the order of the keys.     *)
+KeyOrders(n) == CASE n = 2 -> {<<2, 1>>}
+                  [] n = 3 -> {<<3, 2, 1>>, <<2, 3, 1>>}
+                  [] n = 4 -> {<<4, 3, 2, 1>>, <<2, 4, 1, 3>>}
+                  [] OTHER -> {}
+PermCont(ns, tag, n, ss, perm) ==
+  [t |-> tag, v |-> [i \in 1..n |-> Ent(ns, i, IF tag = "imap" THEN IntKeys[perm[i]] ELSE MapKeys[perm[i]], ss, 0)]]
+Shuffled(ns) == UNION {UNION {{PermCont(ns, "map", n, {}, p), PermCont(ns, "map", n, {n}, p), PermCont(ns, "imap", n, {}, p)}
+                               : p \in KeyOrders(n)} : n \in 2..MaxLen}
+(* LONG VECTORS.  Twelve positions: the positional feature names have one and two digits ("10" < "2" as text).        *)
+LongLen == 12
+LongVals(ns) == IF ns = "x" THEN <<2, 3, 5, 7, 11, 13, 17, 19, 23, 29, 31, 37>> ELSE <<41, 43, 47, 53, 59, 61, 67, 71, 73, 79, 83, 89>>
+LongCont(ns, ss) == [t |-> "seq", v |-> [i \in 1..LongLen |-> IF i \in ss THEN Str("", Strs(ns)[1]) ELSE Num("", LongVals(ns)[i])]]
+Long(ns) == {LongCont(ns, {}), LongCont(ns, {1}), LongCont(ns, {LongLen}), LongCont(ns, {3, 11})}
 Lite(ns) == {Absent, None} \cup Scalars(ns)
             \cup {Cont(ns, "seq", 0, {}, 0), Cont(ns, "seq", 2, {}, 0), Cont(ns, "seq", MaxLen, {}, 0), Cont(ns, "seq", 2, {2}, 0)}
             \cup {Cont(ns, "map", 0, {}, 0), Cont(ns, "map", 2, {}, 0), Cont(ns, "map", 2, {1}, 0)}
 
 PairsLite == Lite("x") \X Lite("a")
-PairsSingle == CASE Pairs = "lite" -> PairsLite
-                 [] Pairs = "wide" -> (Full("x") \X Lite("a")) \cup (Lite("x") \X Full("a"))
-                 [] Pairs = "full" -> Full("x") \X Full("a")
+(* mappings with shuffled keys: against every Lite value and against each other *)
+PairsShuffled == (Shuffled("x") \X (Lite("a") \cup Shuffled("a"))) \cup ((Lite("x") \cup Shuffled("x")) \X Shuffled("a"))
+PairsSingle == CASE Pairs = "lite" -> PairsLite \cup PairsShuffled
+                 [] Pairs = "wide" -> (Full("x") \X Lite("a")) \cup (Lite("x") \X Full("a")) \cup PairsShuffled
+                 [] Pairs = "full" -> (Full("x") \X Full("a")) \cup PairsShuffled
+(* multi-term lists: Lite x Lite, plus one shuffled mapping (numbers and a string) on either side *)
+ShuffledOne(ns) == {PermCont(ns, "map", MaxLen, {MaxLen}, CHOOSE p \in KeyOrders(MaxLen) : p[1] = 2)}
+PairsMulti == PairsLite \cup (ShuffledOne("x") \X Lite("a")) \cup (Lite("x") \X ShuffledOne("a"))
+PairsLong == (Long("x") \X Lite("a")) \cup (Lite("x") \X Long("a"))
 
 (* terms *)
 Rep(ns, i) == [k \in 1..i |-> ns]
@@ -121,6 +143,8 @@ BaseLists == {<<T(s)>> : s \in SmallTerms}
              \cup {<<T(p[1]), T(p[2])>> : p \in {q \in SmallTerms \X SmallTerms : ~SameBag(q[1], q[2])}}
              \cup {<<T(X1), T(A1), T(XA), T(XXA)>>, <<T(A1), T(XA), T(XXA), T(XXAA)>>, <<T(XXAA), T(XXA), T(AX), T(X1)>>, <<>>}
 MultiLists == IF Multi = "none" THEN {} ELSE UNION {WithConst(l) : l \in BaseLists}
+(* long vectors only meet terms of degree <= 2 (78 monomials for 'xx'); they ride with the multi-term lists of a run *)
+LongLists == IF Multi = "none" THEN {} ELSE {<<T(t)>> : t \in {X1, A1, XA, AX, X2, A2}} \cup {<<C(3), T(X1), T(XA)>>}
 
 ----------------------------------------------------------------------------
 (* the oracle *)
@@ -186,7 +210,8 @@ Expected(c) == [terms |-> c.terms, x |-> c.x, a |-> c.a, mode |-> Mode(c), const
 (* generator: one initial state per case, evaluated and printed in its successor *)
 Init == /\ go = FALSE
         /\ \/ \E tl \in SingleLists : \E p \in PairsSingle : case = [terms |-> tl, x |-> p[1], a |-> p[2]]
-           \/ \E tl \in MultiLists  : \E p \in PairsLite : case = [terms |-> tl, x |-> p[1], a |-> p[2]]
+           \/ \E tl \in MultiLists  : \E p \in PairsMulti : case = [terms |-> tl, x |-> p[1], a |-> p[2]]
+           \/ \E tl \in LongLists   : \E p \in PairsLong : case = [terms |-> tl, x |-> p[1], a |-> p[2]]
 Next == ~go /\ go' = TRUE /\ UNCHANGED case
 Spec == Init /\ [][Next]_vars
 
